@@ -65,7 +65,7 @@ theorem matchBP_false (cfg : Cfg) (b p : Row) : matchBP cfg false b p = onPair c
 theorem candidates_eq (cfg : Cfg) (bl : Bool) (B : Table) (p : Row) :
     candidates {} cfg bl (buildTable {} (buildCols cfg bl) B) p
       = (B.zipIdx.filter (fun e => keyMatch cfg bl e.1 p)).map (·.2) := by
-  simp only [candidates, buildTable, lookup, keyMatch]
+  simp only [candidates, buildTable, lookup, keyMatch, Bool.false_eq_true, ↓reduceIte]
   cases hk : keyOf (probeCols cfg bl) p false with
   | none => simp
   | some k =>
